@@ -1294,8 +1294,11 @@ func (r *Resolvable) walkObject(obj *Object, parent *astjson.Value) (hasError bo
 				fieldName = obj.Path[len(obj.Path)-1]
 			}
 			r.addError(fmt.Sprintf("Unable to resolve field '%s' of abstract type '%s': no runtime types are able to provide the requested fields.", fieldName, obj.TypeName), obj.Path)
+			return r.err()
 		}
-		return r.err()
+		// The render pass only gets here for a list item that the pre-walk has
+		// replaced by null; failing again would leave the list without a value.
+		return r.walkNull()
 	}
 	r.enclosingTypeNames = append(r.enclosingTypeNames, obj.TypeName)
 	defer func() {
